@@ -606,7 +606,7 @@ func (g *gen) arbitraryOptions(ft fieldType, card string, opts *descriptorpb.Fie
 	if opts == nil {
 		opts = &descriptorpb.FieldOptions{}
 	}
-	switch rapid.IntRange(0, 11).Draw(t, "optkind") {
+	switch rapid.IntRange(0, 13).Draw(t, "optkind") {
 	case 0:
 		proto.SetExtension(opts, validate.E_Field, &validate.FieldConstraints{Type: &validate.FieldConstraints_Bool{Bool: &validate.BoolRules{Const: proto.Bool(true)}}})
 		g.cls("opt:validate.bool.const")
@@ -643,6 +643,24 @@ func (g *gen) arbitraryOptions(ft fieldType, card string, opts *descriptorpb.Fie
 	case 11:
 		proto.SetExtension(opts, ext_j5pb.E_Key, &ext_j5pb.PSMKeyFieldOptions{PrimaryKey: true})
 		g.cls("opt:j5.psmkey")
+	case 12:
+		// the members of FieldConstraints that are not type rules: ignore, and
+		// repeated / map rules with and without their items / values
+		ig := rapid.SampledFrom([]validate.Ignore{validate.Ignore_IGNORE_UNSPECIFIED, validate.Ignore_IGNORE_IF_UNPOPULATED, validate.Ignore_IGNORE_IF_DEFAULT_VALUE, validate.Ignore_IGNORE_ALWAYS}).Draw(t, "ignore")
+		fc := &validate.FieldConstraints{Ignore: ig.Enum()}
+		switch rapid.IntRange(0, 3).Draw(t, "ignorewith") {
+		case 0:
+			fc.Type = &validate.FieldConstraints_Repeated{Repeated: &validate.RepeatedRules{MinItems: proto.Uint64(1), Unique: proto.Bool(true)}}
+		case 1:
+			fc.Type = &validate.FieldConstraints_Repeated{Repeated: &validate.RepeatedRules{Items: &validate.FieldConstraints{Type: &validate.FieldConstraints_String_{String_: &validate.StringRules{MinLen: proto.Uint64(1)}}}}}
+		case 2:
+			fc.Type = &validate.FieldConstraints_Map{Map: &validate.MapRules{MinPairs: proto.Uint64(1)}}
+		}
+		proto.SetExtension(opts, validate.E_Field, fc)
+		g.cls("opt:validate.ignore")
+	case 13:
+		proto.SetExtension(opts, validate.E_Field, &validate.FieldConstraints{Type: &validate.FieldConstraints_Repeated{Repeated: &validate.RepeatedRules{MaxItems: proto.Uint64(3)}}})
+		g.cls("opt:validate.repeated-no-items")
 	}
 	return opts
 }
@@ -723,6 +741,16 @@ func (g *gen) consistentOptions(ft fieldType, card string) *descriptorpb.FieldOp
 			proto.SetExtension(opts, ext_j5pb.E_Field, &ext_j5pb.FieldOptions{Type: &ext_j5pb.FieldOptions_Key{Key: &ext_j5pb.KeyField{Type: &ext_j5pb.KeyField_Format_{Format: ext_j5pb.KeyField_FORMAT_ID62}}}})
 			list = &list_j5pb.FieldConstraint{Type: &list_j5pb.FieldConstraint_String_{String_: &list_j5pb.StringRules{WellKnown: &list_j5pb.StringRules_ForeignKey{ForeignKey: &list_j5pb.ForeignKeyRules{Type: &list_j5pb.ForeignKeyRules_Id62{Id62: &list_j5pb.KeyRules{Filtering: filtering()}}}}}}}
 			g.cls("ann:key-id62")
+			// entity key markers, with or without the required flag the j5s compiler
+			// would add: a hand-written file is free not to
+			switch rapid.IntRange(0, 3).Draw(t, "psmkey") {
+			case 0:
+				proto.SetExtension(opts, ext_j5pb.E_Key, &ext_j5pb.PSMKeyFieldOptions{PrimaryKey: true})
+				g.cls("ann:psm-primary-key")
+			case 1:
+				proto.SetExtension(opts, ext_j5pb.E_Key, &ext_j5pb.PSMKeyFieldOptions{TenantType: proto.String("account")})
+				g.cls("ann:psm-tenant-key")
+			}
 		default:
 			proto.SetExtension(opts, ext_j5pb.E_Field, &ext_j5pb.FieldOptions{Type: &ext_j5pb.FieldOptions_Key{Key: &ext_j5pb.KeyField{Type: &ext_j5pb.KeyField_Pattern{Pattern: "^[a-z]{3}-\\d+$"}}}})
 			g.cls("ann:key-custom")
